@@ -3,7 +3,7 @@ r=json.load(open(sys.argv[1]))
 print({k:r[k] for k in ['cases','distinct_nontrivial','n_mismatches','n_oracle_failures','notes','wall_s']})
 print(r['stream_comparisons'])
 from collections import Counter
-print(Counter(m['stream'] for m in r['mismatches']))
+print(Counter(m['stream'] for m in (r['mismatches'] or [])))
 def dehex(s):
     import re
     def f(m):
@@ -12,7 +12,7 @@ def dehex(s):
     return re.sub(r'\bs((?:[0-9a-f]{2})*)\b',f,s)
 n=int(sys.argv[2]) if len(sys.argv)>2 else 3
 seen=set()
-for m in r['mismatches']:
+for m in (r['mismatches'] or []):
     if m['case'] in seen: continue
     seen.add(m['case'])
     if len(seen)>n: break
@@ -21,5 +21,10 @@ for m in r['mismatches']:
     i=0
     while i<min(len(a),len(b)) and a[i]==b[i]: i+=1
     print(' M ...',a[max(0,i-150):i+300]); print(' I ...',b[max(0,i-150):i+300])
+print(r.get('failure_signatures'))
+seen2=set()
 for f in r.get('oracle_failures') or []:
-    print('FAIL',f['oracle'],f['signature'],dehex(f['detail'])[:400]); print('   IN',dehex(f['input'])[:800])
+    if f['signature'] in seen2: continue
+    seen2.add(f['signature'])
+    if len(seen2)>n: break
+    print('FAIL',f['oracle'],f['signature'],dehex(f['detail'])[:300]); print('   IN',dehex(f['input'])[:500])
